@@ -187,6 +187,7 @@ func sameDayCount(bs []fixture.Block, b fixture.Block) int {
 }
 
 func c04Run(x *explore.Ctx) {
+	gpfile.VerifResetPools()
 	n := 3
 	if x.Thorough() {
 		n = 4
@@ -294,8 +295,9 @@ func init() {
 			}
 			return 1
 		},
-		Run:   c04Run,
-		Setup: func(string) { engine.VerifSetNumProcessingUnits(1) },
+		Run:      c04Run,
+		PanicSig: "panic",
+		Setup:    func(string) { engine.VerifSetNumProcessingUnits(1) },
 		Assumptions: []string{"process kill semantics: completed system calls persist in order (no power loss; goProbe never calls fsync)",
 			"one file-system step = one system call of the vos shim (MkdirAll/RemoveAll/WriteFile/CreateTemp decomposed)"},
 	})
@@ -304,6 +306,7 @@ func init() {
 // ---- C05: failed I/O during a write-out -------------------------------------------
 
 func c05Run(x *explore.Ctx) {
+	gpfile.VerifResetPools()
 	n := 3
 	hist := woHistory(x.Case, n)
 	dbPath := fixture.NewDir()
@@ -378,6 +381,7 @@ func init() {
 			return 1
 		},
 		Run:         c05Run,
+		PanicSig:    "panic",
 		Setup:       func(string) { engine.VerifSetNumProcessingUnits(1) },
 		Assumptions: []string{"a failed call has no effect on the tree (a short write leaves the written prefix)", "one file-system step = one system call of the vos shim"},
 	})
